@@ -29,6 +29,11 @@ for id in "$@"; do
   race=""; [ "$id" = C05 ] && race="-race"
   out=$(cd "$hc/harness" && VERIF_ROOT="$hc/root" VERIF_TIER="${TIER:-quick}" VERIF_SEED="${VERIF_SEED:-1}" VERIF_SHRINKTIME=5s \
         timeout 3600 go test $race -tags verif -count=1 -timeout 3500s -run '^TestProp' ./"$pkg" 2>&1)
+  if [ "$id" = C10 ] && ! echo "$out" | grep -q "^VIOLATION"; then
+    # the driver's second leg: the fallback Int representation (address space limited as in the repo's TestIntFallback)
+    out=$(cd "$hc/harness" && go test -c -tags verif -o "$hc/c10.test" ./c10 2>&1 && cd c10 && (ulimit -v 4000000; VERIF_INTREP=fallback VERIF_ROOT="$hc/root" VERIF_TIER="${TIER:-quick}" VERIF_SEED="${VERIF_SEED:-1}" VERIF_SHRINKTIME=5s \
+          timeout 3600 "$hc/c10.test" -test.run '^TestProp' -test.timeout 3500s 2>&1))
+  fi
   if echo "$out" | grep -q "^VIOLATION"; then
     echo "$id: CAUGHT"; echo "$out" | grep -A1 "^VIOLATION" | head -4 | cut -c1-400
   else
